@@ -20,7 +20,7 @@ MANIFEST = {
             "arrangement/element-index/system-operation operands are judged on template + register fields only (partial; counted in the evidence). "
             "Classes without a hand model are covered by the monitor sweep only (testing).",
 }
-MODS = ["AsmjitVerif.Props.C02"]
+MODS = ["AsmjitVerif.Props.C02", "AsmjitVerif.Props.C02E2E", "AsmjitVerif.Props.C02Valid"]
 M64 = (1 << 64) - 1
 
 GP_IDS_OK = [0, 1, 7, 8, 15, 16, 29, 30]
@@ -200,7 +200,7 @@ def candidates(form, k, rng, pos):
         lim = (1 << (w - 1)) * sc
         pc = 0x10000000 + pos
         offs = {0, sc, -sc, lim - sc, lim, -lim, -lim - sc, 1, 2, lim + sc}
-        return ["a%x" % (pc + 8)], [["a%x" % ((pc + o) & M64)] for o in sorted(offs)] + [["ml0"], ["ml8"], ["ml1"]]
+        return ["a%x" % (pc + 8)], [["a%x" % ((pc + o) & M64)] for o in sorted(offs)] + [["ml0"], ["ml8"], ["ml1"], ["a0"], ["a8"], ["a100000008"]]
     if kind == ".memBaseOnly":
         m = re.search(r"#off==?(\d+)(<<sz)?\]@", src) or re.search(r"#(\d+)\]@", src)
         if m:
@@ -406,6 +406,8 @@ def run(res):
             continue
         modelled += 1
         if a != b:
+            if mon[i].startswith("BAD") and a.startswith("ok") and b.startswith("err"):
+                continue      # the model (repaired code) refuses what the monitor already reports as wrongly accepted: same defect
             diffs.append(i)
 
     kinds = {}
